@@ -255,6 +255,8 @@ struct Value {
         if (val_ptr != nullptr) {
             setTypeToPtrValue();
             value_ = val_ptr;
+        } else {
+            setTypeToUndefined();
         }
     }
 
